@@ -2,7 +2,7 @@
 Real qmail-queue under vshim in a sandbox queue; for every generated (message, envelope) the golden
 run's trace is recorded and then EVERY crash point and EVERY single-fault site of that trace is
 re-executed; oracle = DESIGN.md section 5/C01 (clauses 1-5)."""
-import os, re, time, subprocess, errno, calendar, json
+import os, re, time, signal, subprocess, errno, calendar, json
 from lib import vlib, sandbox
 from hypothesis import strategies as st
 
@@ -125,7 +125,7 @@ class Runner:
         self.ossified = None
         self.extra = b""              # QUEUE_EXTRA of the build under test (extra.h)
 
-    def execute(self, uid, crash=None, fault=None, hold_trigger=False, alarm=None):
+    def execute(self, uid, crash=None, fault=None, hold_trigger=False, alarm=None, blocked=False):
         h = self.h
         h.clean_queue()
         h.clear_trace()
@@ -145,8 +145,11 @@ class Runner:
         t0 = int(time.time())
         try:
             with open(self.msgf, "rb") as f0, open(self.envf, "rb") as f1:
+                # blocked: the caller had SIGALRM (and SIGPIPE, SIGTERM) blocked when it started the program - a signal mask is inherited
+                # across exec; the program is documented to clear it first thing, or its death timer could never fire
+                pre = (lambda: signal.pthread_sigmask(signal.SIG_BLOCK, [signal.SIGALRM, signal.SIGPIPE, signal.SIGTERM])) if blocked else None
                 p = subprocess.Popen([self.tree.path("qmail-queue")], stdin=f0, stdout=f1, stderr=subprocess.DEVNULL,
-                                     env=env, cwd="/", close_fds=True)
+                                     env=env, cwd="/", close_fds=True, preexec_fn=pre)
                 try:
                     rc = p.wait(timeout=20)
                 except subprocess.TimeoutExpired:
@@ -313,8 +316,8 @@ def run_input(r, sc, stats, full=True, pick=None):
     icls = "env_" + sc["mut"]["kind"]
     key_in = vlib.digest(sc)[:12]
 
-    def one(mode, crash=None, fault=None, expect=None, alarm=None):
-        rc, pid, t0, t1, ev = r.execute(uid, crash=crash, fault=fault, hold_trigger=hold, alarm=alarm)
+    def one(mode, crash=None, fault=None, expect=None, alarm=None, blocked=False):
+        rc, pid, t0, t1, ev = r.execute(uid, crash=crash, fault=fault, hold_trigger=hold, alarm=alarm, blocked=blocked)
         if not ev:
             # not a single traced call: the program ran without the interposer (ld.so skips an unreadable preload silently) - nothing
             # can be judged, and certainly no crash or fault was injected
@@ -366,7 +369,9 @@ def run_input(r, sc, stats, full=True, pick=None):
             kinds = [str(errno.ENFILE), str(errno.EACCES), str(errno.ENOSPC), str(errno.EEXIST)]
         elif cls == "link":
             kinds = [str(errno.EEXIST), str(errno.ENOSPC), str(errno.EIO)]
-        elif cls in ("fsync", "unlink", "fstat", "chdir", "close", "pwrite", "ftruncate"):
+        elif cls == "pwrite":
+            kinds = [str(errno.EIO), str(errno.EPIPE)]     # the trigger's reader went away between open() and write(): "if it fails, bummer"
+        elif cls in ("fsync", "unlink", "fstat", "chdir", "close", "ftruncate"):
             kinds = [str(errno.EIO)]
         for kind in kinds:
             plans.append(("fault", cls, k, kind, ev))
@@ -382,6 +387,8 @@ def run_input(r, sc, stats, full=True, pick=None):
             v, _, _ = one(("crash", pl[1]), crash=pl[1])
         elif pl[0] == "alarm":
             v, _, rc_a = one(("alarm", pl[1]), alarm=pl[1], expect=52)
+            if not v and pl[1] % 3 == 0:
+                v, _, rc_a = one(("alarm", pl[1], "inherited_blocked_mask"), alarm=pl[1], expect=52, blocked=True)
         else:
             _, cls, k, kind, ev = pl
             exp = expected_fault_exit(cls, kind, ev) if grc == 0 else None
